@@ -2,6 +2,9 @@
 // Part 1: exhaustive enumeration of range sets fed to ranges.Gaps against a bitmap
 // oracle. Part 2 (trees.go): coverage bitmap of every buffer of every decode tree of
 // the shared tree corpus (decoder DSL programs and corpus files incl. failed decodes).
+// Part 3 (tlshs.go, tlswire.go): hand-written TLS handshakes over TCP in a pcap, every
+// cipher suite x version x key exchange body x record layout, same coverage oracle on
+// the pcap buffer and both stream buffers (trees mutated by the tls post pass).
 package c04
 
 import (
@@ -27,6 +30,9 @@ func run(r *core.Run) {
 	if only == "" || only == "gaps" {
 		gapsExhaustive(r)
 	}
+	if only == "" || only == "tls-handshakes" || only == "tls" {
+		tlsHandshakes(r)
+	}
 	if only == "" || only == "trees" || only == "dsl" || only == "corpus" {
 		trees(r)
 	}
@@ -47,6 +53,8 @@ func replay(r *core.Run, raw json.RawMessage) bool {
 		sig, msg := judgeGaps(c.Total, c.Ranges)
 		fmt.Printf("  total=0:%d ranges(start,len)=%v\n  %s %s\n", c.Total, c.Ranges, sig, msg)
 		return sig != ""
+	case "tls":
+		return replayTLS(raw)
 	default:
 		return replayTree(r, raw)
 	}
